@@ -251,7 +251,12 @@ def hard_cases(rng, sr, n):
             continue
         if nd == 5 and rng.random() < 0.3:
             a0, a1 = sorted(rng.sample(range(nd), 2))
-            x = x.fuse((a0, a1))
+            try:
+                x = x.fuse((a0, a1))
+            except Exception as e:      # the preparatory fuse itself fails: a finding with its input, not a crash of the check
+                found.append({'op': 'fuse', 'symmetry': sym, 'x': {'indices': [(sorted(ix.chargemap.items()), ix.dual) for ix in x.indices],
+                              'sectors': [list(sc) for sc in x.blocks]}, 'groups': [[a0, a1]], 'raised': '%s: %s' % (type(e).__name__, e)})
+                continue
         cases.append((sym, x, rand_groups_two_fused(rng, x.ndim)))
     return cases
 
@@ -269,7 +274,12 @@ def make_cases(rng, sr, n):
             continue
         if rng.random() < 0.2 and nd >= 3:
             a0, a1 = sorted(rng.sample(range(nd), 2))
-            x = x.fuse((a0, a1))
+            try:
+                x = x.fuse((a0, a1))
+            except Exception as e:
+                found.append({'op': 'fuse', 'symmetry': sym, 'x': {'indices': [(sorted(ix.chargemap.items()), ix.dual) for ix in x.indices],
+                              'sectors': [list(sc) for sc in x.blocks]}, 'groups': [[a0, a1]], 'raised': '%s: %s' % (type(e).__name__, e)})
+                continue
         cases.append((sym, x, rand_groups(rng, x.ndim)))
     return cases
 
